@@ -484,6 +484,11 @@ func (a *Analysis) failsOnly(fn *ssa.Function, from, origin *ssa.BasicBlock) str
 			if isNil(v) {
 				return fmt.Sprintf("reaches 'return …, nil' at %s", a.P.InstrPos(t))
 			}
+			// a variable that was tested to be nil on the way here (an outer err
+			// shadowed by the one that failed) is a nil return as well
+			if knownNilAt(v, b) {
+				return fmt.Sprintf("reaches a return of an error value known to be nil at %s", a.P.InstrPos(t))
+			}
 		case *ssa.Panic:
 		default:
 			for _, s := range b.Succs {
@@ -575,4 +580,41 @@ var stdlibWriterWrappers = map[string]bool{
 	"bufio.NewWriter": true, "bufio.NewWriterSize": true, "bufio.NewReadWriter": true,
 	"io.MultiWriter": true, "gzip.NewWriter": true, "gzip.NewWriterLevel": true,
 	"zlib.NewWriter": true, "flate.NewWriter": true, "hex.NewEncoder": true, "base64.NewEncoder": true,
+}
+
+// knownNilAt: every path to block b passed the "v == nil" side of a branch on
+// v (dominator chain).
+func knownNilAt(v ssa.Value, b *ssa.BasicBlock) bool {
+	for d := b; d != nil; d = d.Idom() {
+		id := d.Idom()
+		if id == nil {
+			break
+		}
+		ifi, ok := id.Instrs[len(id.Instrs)-1].(*ssa.If)
+		if !ok {
+			continue
+		}
+		bo, ok := ifi.Cond.(*ssa.BinOp)
+		if !ok || !((bo.X == v && isNil(bo.Y)) || (bo.Y == v && isNil(bo.X))) {
+			continue
+		}
+		// which side of the branch dominates d?
+		var nilSide *ssa.BasicBlock
+		switch bo.Op {
+		case token.EQL:
+			nilSide = id.Succs[0]
+		case token.NEQ:
+			nilSide = id.Succs[1]
+		default:
+			continue
+		}
+		other := id.Succs[0]
+		if other == nilSide {
+			other = id.Succs[1]
+		}
+		if nilSide.Dominates(b) && !other.Dominates(b) && len(nilSide.Preds) == 1 {
+			return true
+		}
+	}
+	return false
 }
